@@ -105,6 +105,12 @@ def sites(m, limit=None, accept_biased=False, coords=False):
             for b in bs:
                 out.append(("gh.box_bounds_shift_cell", (lv, b)))
                 out.append(("gh.box_hi_plus_cell", (lv, b)))
+                d = (lv + b) % m.ndims          # the other bound lines too, not only the first direction
+                out.append(("gh.box_bounds_shift_cell", (lv, b, d)))
+                out.append(("gh.box_lo_quarter_cell", (lv, b, d)))
+                out.append(("gh.box_lo_nan", (lv, b, d)))
+                out.append(("gh.box_hi_nan", (lv, b, (d + 1) % m.ndims)))
+                out.append(("gh.box_hi_inf", (lv, b, d)))
     return out
 
 
@@ -243,15 +249,24 @@ def apply(path, m, op, args):
             nb = int(lines[i].split()[1])
             if b >= nb:
                 return None
-            j = i + 2 + b * m.ndims
+            d = args[2] if len(args) > 2 else 0
+            j = i + 2 + b * m.ndims + d
             lo, hi = (float(v) for v in lines[j].split())
-            dx = m.dx[lv][0]
+            dx = m.dx[lv][d]
             if op == "gh.box_bounds_shift_cell":
                 lines[j] = f"{lo + dx!r} {hi + dx!r}"
+            elif op == "gh.box_lo_quarter_cell":
+                lines[j] = f"{lo + 0.25 * dx!r} {hi!r}"
+            elif op == "gh.box_lo_nan":
+                lines[j] = f"nan {hi!r}"
+            elif op == "gh.box_hi_nan":
+                lines[j] = f"{lo!r} nan"
+            elif op == "gh.box_hi_inf":
+                lines[j] = f"{lo!r} inf"
             else:
                 lines[j] = f"{lo!r} {hi + dx!r}"
             _write_lines(hp, lines)
-            return f"{op} L{lv} box {b}"
+            return f"{op} L{lv} box {b} direction {d}"
         # ---- level header operators
         if not os.path.exists(chp):
             return None
@@ -429,6 +444,28 @@ def scan_lenient(fp):
             out.append((pos, len(line), nb, lo, hi, nc))
             pos += len(line) + nb
     return out, True
+
+
+def scan_by_search(fp):
+    """Every FAB header line of the file found by SEARCHING for the FAB keyword (not by walking from
+    byte 0, which stops at the first disagreement).  Returns (fabs sorted by position, file size)."""
+    with open(fp, "rb") as f:
+        data = f.read()
+    out = []
+    at = data.find(b"FAB ")
+    while at >= 0:
+        end = data.find(b"\n", at, at + 400)
+        if end >= 0:
+            line = data[at:end + 1]
+            try:
+                lo, hi, nc = parse_fab_header_line(line)
+                shape = [h - l + 1 for l, h in zip(lo, hi)]
+                if all(s > 0 for s in shape) and nc > 0:
+                    out.append((at, len(line), 8 * nc * int(np.prod(shape)), lo, hi, nc))
+            except FormatError:
+                pass
+        at = data.find(b"FAB ", at + 4)
+    return out, len(data)
 
 
 def effective_damage(path, header_nboxes, nfields, ndims, limit):
